@@ -327,6 +327,12 @@ type recording struct {
 	sessions map[int]*cskit.SessionLog
 	stopped  bool
 	inner    xfs.FS // the filesystem the recorded run actually wrote to
+	// firstTagged: index of the first delete whose input has the precondition of one of
+	// C04's open findings (R6/R7: a refused or range-snapping index delete leaves a
+	// dependant unreadable WITHOUT any crash); -1 when there is none. From that operation
+	// on the stored state may disagree with the model for a reason that is C04's finding,
+	// so crash points there are not judged by this property.
+	firstTagged int
 }
 
 func record(s *cskit.Script) *recording {
@@ -335,7 +341,7 @@ func record(s *cskit.Script) *recording {
 	// one channel at a time during garbage collection: the recorded log then holds each
 	// channel's compaction as one contiguous block (channel order is still map order)
 	e.ExtraOptions = []cesium.Option{cesium.WithGCConfig(cesium.GCConfig{Threshold: s.GCThreshold, TryInterval: 24 * time.Hour, MaxGoroutine: 1})}
-	rec := &recording{s: s, snaps: map[int]*snapshot{}, inner: rfs.Inner()}
+	rec := &recording{s: s, snaps: map[int]*snapshot{}, inner: rfs.Inner(), firstTagged: -1}
 	created := map[uint32]bool{}
 	chanIdx := -1000
 	copyCreated := func() map[uint32]bool {
@@ -353,6 +359,9 @@ func record(s *cskit.Script) *recording {
 	}
 	e.AfterOp = func(i int, op cskit.Op, ex *cskit.Exec) {
 		rec.snaps[i] = &snapshot{durable: ex.Durable.Clone(), ever: cloneEver(ex.Ever), created: copyCreated()}
+		if rec.firstTagged < 0 && ex.DeleteTags != "" {
+			rec.firstTagged = i
+		}
 		log.Mark(i, op.Kind)
 	}
 	if err := e.Setup(); err != nil {
@@ -546,6 +555,19 @@ func one(h *harness.H, layer string, c int, maint bool) {
 		torns := []int{-1}
 		if m.Kind == recfs.WriteAt && len(m.Data) >= 2 {
 			torns = append(torns, len(m.Data)/2, 1)
+		}
+		if rec.firstTagged >= 0 {
+			inFlight := len(s.Ops)
+			for j := k; j < len(muts); j++ {
+				if muts[j].Kind == recfs.Marker {
+					inFlight = muts[j].Idx
+					break
+				}
+			}
+			if inFlight >= rec.firstTagged {
+				h.Count("crash_points_not_judged_after_a_delete_with_a_c04_known_finding_precondition", len(torns))
+				continue
+			}
 		}
 		for _, torn := range torns {
 			h.Eval()
